@@ -153,7 +153,7 @@ func (cache *H264Cache) getPalyloadType(payload []byte) (sps, pps, islice bool) 
 		//  +-+-+-+-+-+-+-+-+-+-+-+-+-+-+-+-+-+-+-+-+-+-+-+-+-+-+-+-+-+-+-+-+
 		off := 1
 		// 循环读取被封装的NAL
-		for {
+		for off+2 < len(payload) { // 至少还有长度字段和 1 字节 NAL，防止越界
 			// nal长度
 			nalSize := ((uint16(payload[off])) << 8) | uint16(payload[off+1])
 			if nalSize < 1 {
